@@ -20,6 +20,11 @@ GROUPS = [
      "genuine defect of the pinned tree, group 'classification depends on layout' (DESIGN 14.2)"),
     (("exception:", "hang@", "escaped:", "traceback:"),
      "genuine defect of the pinned tree, group 'crashes and hangs' (DESIGN 14.2): an accepted file (or a documented configuration) makes a rule or the classifier raise / not terminate; each call site needs its own guard and a decision what the rule should report there"),
+    (("tagged_rule_reported_on_tagged_line",),
+     "genuine defect of the pinned tree (DESIGN 14.2, code tags): the rule reports on the line after vsg_disable_next_line although every token of that line carries the tag: the tokens of its violation "
+     "reach into the neighbouring, untagged line; same cause as the entries of the second session"),
+    (("rule_switched_off_by_tags_for_the_whole_file_still_fixed",),
+     "genuine defect of the pinned tree (DESIGN 14.2, code tags): a rule switched off by code tags for the whole file still fixes, because the token it acts on was inserted by an earlier rule and carries no tags"),
     (("unclassified_token_left",), "genuine defect of the pinned tree: form feed / no-break space accepted as separator but left unclassified (DESIGN 14.2)"),
 ]
 args = sys.argv[1:]
